@@ -242,8 +242,16 @@ func (eq *externalBaseQueue) Worker() Worker {
 }
 
 func (eq *externalBaseQueue) Purge() {
-	prevValues := eq.q.Values()
-	eq.q.Purge()
+	var prevValues []any
+
+	// Queues that can hand over exactly what they removed do so atomically, otherwise a job
+	// enqueued between Values and Purge would be removed without being closed.
+	if q, ok := eq.q.(interface{ PurgeValues() []any }); ok {
+		prevValues = q.PurgeValues()
+	} else {
+		prevValues = eq.q.Values()
+		eq.q.Purge()
+	}
 
 	// close all pending channels to avoid routine leaks
 	for _, val := range prevValues {
